@@ -19,18 +19,15 @@ POOL_NOTE = ("Assumes: SQLite executes each statement and its meaning is the SQL
 CLAIMS = {
     "C01": dict(engine="mirsym", technique=MS, design="3/C01", note=POOL_NOTE,
                 text="Solver-decided for ONE allocate_address step from every lease table the representation invariant admits (<= 2 rows quick / 3 thorough, all columns symbolic), every client, requested address, pool set of <= 2 (3) symbolic addresses, min/max lease and non-decreasing clock: a granted address is not held unexpired by another client, ends up as exactly one row owned by the asker and is a pool member; the invariant is re-established; a refusal leaves the table untouched. Induction over the step covers histories of any length, pool changes between messages and restarts. Plus handle_pkt (DISCOVER and REQUEST) from MIR on top of the pool model: yiaddr is the address whose row the pool wrote for the asking client, and the pool is asked on behalf of the client identifier."),
-    "C02": dict(engine="kani+mirsym", technique=KB + " (prefix arithmetic); " + MS + " (pool membership of every grant)", design="3/C02",
-                text="Solver-decided: Prefix4 / Ipv4Subnet network, netmask, broadcast and containment equal mask arithmetic for all addresses and prefix lengths; every address granted by allocate_address is a member of the address set handed down by the policy layer (all grant paths, inductive step as C01).",
-                note="NOT decided (outside both engines: HashSet construction inside iterator closures, YAML walker): that build_default_config / apply-subnet / apply-range expand to exactly the documented host set, reservation subtraction, draining a pool through real packets. " + POOL_NOTE),
+    "C02": dict(engine="kani+mirsym", technique=KB + " (prefix arithmetic); " + MS + " (pool membership of every grant; default-policy host range and reserved-address union from MIR with lazily generated symbolic sets)", design="3/C02",
+                text="Solver-decided: Prefix4 / Ipv4Subnet network, netmask, broadcast and containment equal mask arithmetic for all addresses and prefix lengths, and Ipv4Subnet::new refuses every length > 32; the sub-policy build_default_config derives from an `addresses` prefix (closure executed from MIR; prefix, length 0..=32, receiving address symbolic, reserved addresses an arbitrary set) hands out exactly D = host addresses of the prefix minus the receiving address minus addresses reserved by configured policies - both inclusions, no overflow; get_all_used_addresses is exactly the union of every policy's address set at every depth (tree shapes of depth <= 2, 3 thorough; cached second call too); every address granted by allocate_address is a member of the address set handed down by the policy layer (all grant paths, inductive step as C01); the innermost applied policy's own set replaces the parent's (C11's pool claim).",
+                note="NOT decided (YAML walker outside both engines): that apply-subnet / apply-range in parse_policy expand to the documented host set (the repaired off-by-one there is demonstrated natively only), single-address reservations end to end, draining a pool through real packets. " + POOL_NOTE),
     "C03": dict(engine="mirsym", technique="symbolic execution of rustc MIR into SMT (z3) of create_in_reply, whose async body is lifted verbatim into a synchronous fn on every run", design="3/C03",
                 text="Solver-decided for upstream replies of bounded section shape (<= 3 records per section) with every record field, rcode and header bit symbolic and client queries with symbolic id/question: the reply assembled by create_in_reply carries the client's id and question, is marked as a response, and its rcode, answer, authority and additional sections are the upstream's record by record and in order.",
                 note="Assumes the syntactic lifting (strip .await, add_edns -> no-op: it only fills the reply's own OPT options) preserves the body; derived Clone = structural copy. NOT decided: the upstream query (create_outquery), id matching and retry in outquery.rs (async sockets), the wire codec (C14, not claimed), TTL ageing in the cache (C06)."),
-    "C04": dict(engine="mirsym", technique="symbolic execution of rustc MIR into SMT (z3) of the size-limited DNS serialiser with a symbolic size limit, checked against an independent structural oracle", design="3/C04",
-                text="Solver-decided for messages of bounded concrete shape (<= 5 records with rdata of 0..600 octets across the three sections, with and without OPT) with symbolic ids, flags, types, TTLs, rcode and a symbolic size limit over the whole range 512..65535: DNSPkt::serialise_with_size never exceeds the limit, drops whole records from the end only, rewrites the three section counts to the records actually present, sets TC exactly when a record was dropped, and the output length is header + question + kept records (so the header is neither shifted nor grown).",
-                note="NOT decided: which limit each transport passes (run_udp / run_tcp / prepare_to_send are tokio socket tasks) and the bufsize floor applied by the parser beyond what C14's round trip shows; owner names other than the root in the size obligations (compression is covered by C14's obligations); messages with > 5 records. Summaries for byte vectors / iterators listed in the evidence."),
-    "C14": dict(engine="mirsym", technique="symbolic execution of rustc MIR into SMT (z3) of DNSPkt::serialise followed by PktParser::get_dns, checked field by field and against an independent RFC 1035 reference decoder", design="3/C14",
-                text="Solver-decided for messages of bounded concrete layout (<= 4 records, names of <= 4 labels sharing suffixes at several depths or not - both equal and unequal labels explored -, rdata up to 16400 octets so that names are written on both sides of offset 16384, with and without EDNS, ids/TTLs/types/classes/12-bit rcode/flags symbolic): decode(encode(m)) = m for every header bit, the folded EDNS fields, the question and every record; every compression pointer found by an independent decoder targets an earlier offset below 16384 and every name expands to the original; no panic.",
-                note="NOT decided: arbitrary accepted byte strings (only messages produced by the encoder from the stated layouts), record data with embedded names (NS/MX/SOA/NAPTR rdata are not in the layouts yet), > 4 records, labels longer than 3 octets."),
+    "C04": dict(engine="mirsym", technique="symbolic execution of rustc MIR into SMT (z3) of the size-limited DNS serialiser with a symbolic size limit, and of the per-transport choice of limit (initialisers of the sent buffers lifted verbatim from run_udp / run_tcp), checked against an independent structural oracle", design="3/C04",
+                text="Solver-decided for messages of bounded concrete shape (<= 5 records with rdata of 0..600 octets across the three sections, with and without OPT) with symbolic ids, flags, types, TTLs, rcode and a symbolic size limit over the whole range 512..65535: DNSPkt::serialise_with_size never exceeds the limit, drops whole records from the end only, rewrites the three section counts to the records actually present, sets TC exactly when a record was dropped, and the output length is header + question + kept records. Per transport, for every advertised payload size 0..65535: what run_udp sends is never larger than max(512, advertised); what run_tcp sends is complete whenever it fits in 65535 octets.",
+                note="NOT decided: the socket calls themselves and that the lifted `let` initialiser is the buffer handed to send_msg / write (read, two lines below it); owner names other than the root in the size obligations (compression is covered by C14's obligations); messages with > 5 records. Summaries for byte vectors / iterators listed in the evidence."),
     "C05": dict(engine="kani+mirsym", technique=KB + " on parser skeletons (length/type fields enumerated over boundary values, contents symbolic); symbolic execution of rustc MIR into SMT (z3) of the DNS decoder, EDNS accessors and re-encoder on message skeletons", design="3/C05",
                 text="Solver-decided panic-freedom (Kani's overflow, bounds, unwrap, assert checks + unwinding assertions) of: the pktparser cursor (any 3 operations, buffers <= 8 octets), dhcppkt::parse at every field-boundary truncation and on fully symbolic 241-octet headers, EDNS COOKIE/EDE accessors for option lengths 0..40, LLDP TLV / management-address / packet decoders and ICMPv6 option decoders on skeleton families; the lifted rate-limiter bucket indexing. (mirsym) PktParser::get_dns + get_cookie/get_extended_dns_error + DNSPkt::serialise on 11 DNS message skeletons (plain, OPT, COOKIE of 0/7/8/24 octets, short EDE, compressed answer, self/forward/out-of-range pointers, lying counts) and on every truncation point of two of them, contents symbolic: Ok or Err, no panic in decode, option access or re-encode.",
                 note="NOT decided: arbitrary byte strings beyond the skeleton families and sizes stated per obligation; DHCP option decoding through parse_options (HashMap inserts: out of CBMC's reach); DNS messages outside the skeleton family (symbolic length fields); stack depth of recursive name compression; 'the service still answers the next request' (process liveness; socket loops such as lldp/mod.rs:24 buffer[14..]). Kani models the dev profile (overflow checks on)."),
@@ -61,6 +58,12 @@ CLAIMS = {
     "C16": dict(technique=KB + " of the token bucket with a symbolic clock (inductive potential-function step) and of the lifted cost expression", design="3/C16",
                 text="Solver-decided: one charge attempt from an arbitrary reachable bucket state under an arbitrary non-decreasing clock never releases more than credit + rate*dt (telescopes to burst + rate*elapsed for histories of any length; cross-checked directly for 2-3 attempts); a source idle for the refill period is granted the minimum cost should_ratelimit charges (constant extracted from the source on every run).",
                 note="NOT decided: the two-bucket hashing in IpRateLimiter::check (async, tokio locks, SipHash), the check-then-deplete race under concurrent packets, and the whole cookie sub-claim (HMAC-SHA-256 is not something a SAT back end inverts). Clock values < B/R seconds and the year-2106 wrap are outside the bound."),
+    "C17": dict(technique=KB + " of build_announcement_pure + serialise_router_advertisement against a decoder written from RFC 4861/8106/8781/8910 in the harness", design="3/C17",
+                text="Solver-decided for interface configurations of concrete shape with symbolic values (hop limit, M/O flags, router lifetime tri-state over 0..2^64-1 s, reachable/retrans over 0..2^64-1 s, link-layer address, MTU, one RDNSS list of <= 2 servers at interface or top level incl. $self6, PREF64 with every legal length and any lifetime, captive portal, null suppression): the octets produced decode under the RFC decoder to exactly the configured values, lengths are multiples of 8, reserved fields zero, unrepresentable values clamped never wrapped, no option emitted for an empty list.",
+                note="NOT decided (CBMC does not get through enum tags / Strings read back from the heap for these variants; harnesses exist at tier experimental): Prefix Information options (flags, lifetimes, masking of bits beyond the length - repaired defect shown by reading), DNSSL encoding, all-options framing, 16 prefixes / 8 servers / 240-octet URLs; the async build_announcement wrapper (mtu/lifetime tri-state resolution) and YAML -> Interface (C19)."),
+    "C19": dict(technique=KB + " of the configuration leaf parsers (typed scalar/array parsers, type_to_name, str_duration, parse_duration, hexbyte, radv/dhcp/dns leaf parsers on wrong-typed, empty and null values) and of accepted prefix values in the handlers", design="3/C19",
+                text="Solver-decided: every typed scalar parser returns Ok or InvalidConfig (never panics) on every wrongly typed scalar, null, empty array and empty mapping; type_to_name is total; str_duration is total on every ASCII string of <= 4 characters and on 20-digit / unit-scaling / sum-of-terms overflow families, and returns the documented value on well-formed strings; parse_num/parse_duration over all i64; RA/DHCP/DNS section parsers on non-mapping and empty values; Prefix6::contains(IPv4 client) and Ipv4Subnet accessors are total for every prefix length the loader accepts.",
+                note="NOT decided (measured out of CBMC's reach: str::split/contains on even concrete strings, LinkedHashMap insert of one key, Policy::default): str_prefix*/str_hwaddr/str_sockaddr/parse_subnet/parse_routes on strings, every mapping with keys (parse_policy, parse_interface, parse_prefix with keys, parse_pref64), manual examples loading, byte-level mutations of the example file, and serve(c, r) beyond the prefix-length paths named above. The loader repairs in those regions (prefix length bounds, route prefix, NAT64 length) are demonstrated natively."),
     "C20": dict(engine="mirsym", technique=MS, design="3/C20", note="Assumptions as C01. NOT decided: the JSON lease listing (serve_leases needs a DhcpService with sockets and goes through format!/{:?}); that update_metrics stores first->active, second->expired (async; read, not decided).",
                 text="Solver-decided: get_pool_metrics returns Ok((|{expiry > now}|, |{expiry <= now}|)) for every lease table of <= 2 rows (4 thorough) including the empty one (SQLite's NULL-on-empty SUM is modelled), for every clock value."),
 }
@@ -69,8 +72,6 @@ PENDING = {}
 
 NOT_APPLICABLE = {
     "C18": "persistence across restart/upgrade/crash lives in SQLite's file format, journal and fsync behind FFI and the filesystem; neither Kani nor the MIR->SMT encoder executes it, and a model of SQLite durability would be an assumption rather than the code",
-    "C17": "check under construction (Kani harnesses over build_announcement_pure + icmppkt::serialise); not registered until it is stable on the unchanged tree",
-    "C19": "check under construction (Kani harnesses over the config leaf parsers); not registered until it is stable on the unchanged tree",
 }
 
 ALL = ["C%02d" % i for i in range(1, 21)]
@@ -120,7 +121,7 @@ def main():
         ],
         checks=checks,
         not_applicable=na,
-        notes="Exit codes of ./check: 0 = all obligations discharged (KNOWN-FINDING lines for findings listed in known_findings.json), 1 = VIOLATION (replayed natively), 2 = inconclusive (timeout, memory, bound, vacuity, unsupported construct, build error). Scratch build output lives in /verif/.work (git-ignored).",
+        notes="Exit codes of ./check: 0 = all obligations discharged (KNOWN-FINDING lines for findings listed in known_findings.json), 1 = VIOLATION (replayed natively), 2 = inconclusive (bound, vacuity, unsupported construct, build error, non-reproducing counterexample, or nothing decided at all); a harness that only hits the solver time/memory cap is printed as UNDECIDED, recorded as inconclusive in the evidence and never counted as discharged. Scratch build output lives in /verif/.work (git-ignored).",
     )
     with open(os.path.join(VERIF, "MANIFEST.json"), "w") as f:
         json.dump(man, f, indent=1)
